@@ -328,6 +328,8 @@ def generate(rng):
                 # a signal interrupts the caller while it waits in join(), this many simulated seconds into the wait
                 ops[-1]["intr"] = rng.choice([0.0, 0.05, 0.3, 2.0, 20.0])
                 ops[-1]["intr_class"] = rng.choice(["KeyboardInterrupt", "KeyboardInterrupt", "SystemExit", "BaseException"])
+                # where it strikes: inside the blocking wait, or later, while join() evaluates the program's output
+                ops[-1]["intr_where"] = rng.choice(["wait", "wait", "evaluate"])
             elif s["st"] == RUNNING:
                 s["st"] = "ENDED"
         elif choice == "cancel":
@@ -1379,7 +1381,21 @@ class Sim:
         poll = rec.kind == "stubpoll"
         jumped_before = world.jumped
         intr = op.get("intr") if not self.real else None
-        if intr is not None:
+        in_evaluate = intr is not None and op.get("intr_where") == "evaluate"
+        if in_evaluate:
+            # the asynchronous exception arrives when join() has started to evaluate the output (once)
+            real_evaluate = rec.app.evaluate
+            icls = sw.INJECTED[op.get("intr_class", "KeyboardInterrupt")]
+
+            def interrupted_evaluate():
+                rec.app.__dict__.pop("evaluate", None)
+                self.res.stats["fault:interrupt-in-evaluate"] += 1
+                raise icls()
+
+            rec.app.evaluate = interrupted_evaluate
+            if hang and to is None:
+                raise InvalidSpec("join without timeout on a tool that never exits")
+        elif intr is not None:
             world.interrupt_at = world.now + intr
             world.interrupt_class = sw.INJECTED[op.get("intr_class", "KeyboardInterrupt")]
         elif hang and to is None:
@@ -1402,6 +1418,8 @@ class Sim:
         else:
             st, val = call(fn, *args, **kwargs)
         world.interrupt_at = None
+        if in_evaluate:
+            rec.app.__dict__.pop("evaluate", None)
         if st == "exc" and isinstance(val, sw.INJECTED_CLASSES):
             # the wait was interrupted before the run had ended. Two coherent outcomes: the wrapper is exactly as
             # before (the caller may join again or cancel), or it took the interrupt as a cancellation and released
@@ -1409,7 +1427,7 @@ class Sim:
             self.res.stats["probe:join-interrupted"] += 1
             if intr is None:
                 self.fail("join:interrupt-out-of-nowhere", kind=rec.kind)
-            if world.now + 1e-9 < now0 + intr:
+            if not in_evaluate and world.now + 1e-9 < now0 + intr:
                 self.fail("join:interrupt-too-early", kind=rec.kind)
             real_state = str(getattr(rec.app, "_state", ""))
             if real_state.endswith("CANCELLED"):
